@@ -9,6 +9,13 @@ PID = "C08"
 
 def make_job(rng, idx, quick):
     style = rng.choice(["axis", "axis", "random", "pull"])
+    if idx < (6 if quick else 60):
+        # many tiny pulls: in pull mode the library asks for what a request needs, so what it holds must stay bounded by the plan however many
+        # calls are made (soxr_output, one to three frames per call, thousands of calls, an endless supply)
+        a, b = rng.choice([(1, 4), (1, 3), (2, 5), (3, 4), (147, 160), (1, 1.7), (3, 2), (5, 7), (1, 7.3)])
+        cfg = {"ir": repr(float(a)), "or": repr(float(b)), "recipe": rng.choice([1, 3, 4, 6]), "qflags": 0}
+        return {"cfg": cfg, "env": {"SOXR_USE_SIMD": "0"} if rng.chance(.4) else {}, "N": 10 ** 9, "seed": rng.next() & 0xffffffff, "idx": idx,
+                "style": "tinypull", "ratio": a / b, "nodrain": True}
     if style == "axis":
         e = rng.below(50) - 16                  # io_ratio 2^-16 … 2^33
         r = 2.0 ** e * rng.choice([1, 1, 1 + 2.0 ** -20, 1 - 2.0 ** -20, 1.1, 0.93, 1.5, 3])
@@ -32,6 +39,10 @@ def job_ops(job, plan):
     r = job["ratio"]
     est = int(N / r) + 10
     ops = [cr.create_line(job["cfg"]), "limit %d" % N]
+    if job["style"] == "tinypull":
+        ncalls = 6000 if r >= 1 else 20000
+        ops += ["setfn %d" % rng.choice([0, 64, 1000])] + ["pull %d d1000000" % rng.choice([1, 1, 2, 3]) for _ in range(ncalls)] + ["hash"]
+        return ops
     if job["style"] == "pull" and not job["nodrain"]:
         maxilen = rng.choice([0, 1, 3, 64, 100000])
         pat = rng.choice([["d1"], ["d1000000"], ["d3", "d1", "d1000"], ["d%d" % (1 + rng.below(500)) for _ in range(9)]])
@@ -64,6 +75,7 @@ def oracle(job, tr):
     olen = 0
     maxbuf = 0
     starved = 0
+    tiny = []
     for l in tr.lines:
         if l.startswith("> cr.proc") or l.startswith("> cr.pull"):
             t = l.split()
@@ -77,7 +89,13 @@ def oracle(job, tr):
             r = cr.parse_kv(l)
             od = int(r["od"]); out += od; fed += int(r["id"])
             fl = r.get("fl") == "1"
-            if "occ" in r and not fl and od < olen and r.get("err") == "0":
+            if "occ" in r and not fl and job.get("style") == "tinypull" and r.get("err") == "0":
+                # pull mode: the library asked for what it needed; nothing it holds may grow with the number of calls
+                occ = [int(x) for x in r["occ"].split(",") if x][:-1]
+                tiny.append(occ)
+                starved += 1
+                maxbuf = max(maxbuf, sum(occ))
+            elif "occ" in r and not fl and od < olen and r.get("err") == "0":
                 occ = [int(x) for x in r["occ"].split(",") if x][:-1]
                 isz = [int(x) for x in r["isz"].split(",") if x]
                 starved += 1
@@ -86,6 +104,17 @@ def oracle(job, tr):
                         bad.append(("latency", "output-starved call left stage %d holding %d frames, input_size %d" % (i, o, z)))
                 maxbuf = max(maxbuf, sum(occ))
             if bad:
+                break
+    if len(tiny) >= 2000 and not bad:
+        # a stage's occupancy goes through a bounded pattern (blocks fill and empty); compared over two late stretches of the run it must not
+        # have grown (a surplus kept per call adds up linearly)
+        n = len(tiny)
+        for i in range(len(tiny[0])):
+            m1 = max(o[i] for o in tiny[n // 4: n // 2] if i < len(o))
+            m2 = max(o[i] for o in tiny[3 * n // 4:] if i < len(o))
+            if m2 > 1.3 * m1 + 64:
+                bad.append(("latency", "pull mode, %d calls of 1-3 frames: stage %d holds up to %d frames in the last quarter of the run, %d in the second: "
+                            "the amount buffered grows with the number of calls" % (n, i, m2, m1)))
                 break
     N = job["N"]
     if not bad and tr.rc == 0 and not job["nodrain"]:
